@@ -152,7 +152,14 @@ inline bool callback(char K, int id, const Ev& e, Fsm& fsm, int completion_src_s
     int owner = Fsm::mid;
     int eid = evinfo<Ev>::eid(e), serial = evinfo<Ev>::serial(e);
     std::string key = std::string(1, K) + "." + std::to_string(owner) + "." + std::to_string(id) + "." + std::to_string(serial);
-    int k = E.occurrence(key);
+    // a completion guard asked again within the same entry of its source state (back re-tries completion
+    // rows after every handled event) is neither a new choice nor a deviation point
+    bool fresh = true;
+    if (K == 'G' && eid == 0 && completion_src_sid >= 0) {
+        auto it = E.cmemo.find(id);
+        if (it != E.cmemo.end() && it->second.cnt == E.entries[completion_src_sid]) fresh = false;
+    }
+    int k = fresh ? E.occurrence(key) : 0;
     std::string t = std::string(1, K) + ":" + std::to_string(owner) + ":" + std::to_string(id) + ":" + evtok(e) + ":" + acttok(fsm);
     if (E.observe_flags) t += ":" + vf_flags(fsm);
     bool answer = true;
@@ -177,7 +184,7 @@ inline bool callback(char K, int id, const Ev& e, Fsm& fsm, int completion_src_s
     E.tok(t);
     // deviation point: throw / nested submission
     bool pos_kind = (K == 'G' || K == 'A' || K == 'N' || K == 'X' || K == 'C' || (K == 'T' && E.submit_in_nt));
-    if (pos_kind) {
+    if (pos_kind && fresh) {
         bool can_throw = E.faults && (K == 'G' || K == 'A' || K == 'N' || K == 'X');
         int n = 1 + (can_throw ? 1 : 0) + E.n_menu;
         if (n > 1) {
